@@ -43,6 +43,15 @@ type c03Scenario struct {
 	SkipUntil *int64            `json:"skip_until_ns,omitempty"` // unix nanoseconds
 	Colls     map[uint32]string `json:"colls,omitempty"`
 	AckAll    bool              `json:"ack_all"`
+	// Catch[i] (optional): vBucket i is streamed after a server-requested rollback; the position already reached is
+	// the seqno of its event Idx plus Delta (the library is told through observer.SetCatchup, as client.go does).
+	Catch []c03Catch `json:"catch,omitempty"`
+}
+
+type c03Catch struct {
+	On    bool `json:"on"`
+	Idx   int  `json:"idx"`
+	Delta int  `json:"delta"`
 }
 
 type c03Expect struct {
@@ -116,6 +125,25 @@ func c03Exec(sc c03Scenario) (detail string, labels map[string]bool) {
 			x      *c03Expect
 		}
 		var plan []step
+		// position already reached before the rollback (0 = no rollback on this vBucket)
+		var reached uint64
+		if i < len(sc.Catch) && sc.Catch[i].On {
+			var l uint64
+			var seqs []uint64
+			for _, e := range sc.Vbs[i] {
+				if e.Kind != "oso" {
+					l += 1 + uint64(e.Gap)
+					seqs = append(seqs, l)
+				}
+			}
+			if len(seqs) > 0 {
+				r := int64(seqs[sc.Catch[i].Idx%len(seqs)]) + int64(sc.Catch[i].Delta)
+				if r >= 1 {
+					reached = uint64(r)
+					labels["catchup"] = true
+				}
+			}
+		}
 		for _, e := range sc.Vbs[i] {
 			if e.Kind == "oso" {
 				plan = append(plan, step{x: &c03Expect{ev: e}})
@@ -132,6 +160,9 @@ func c03Exec(sc c03Scenario) (detail string, labels map[string]bool) {
 				if last > 0 {
 					labels["multi_snapshot"] = true
 				}
+				if reached != 0 && m[0] == reached {
+					labels["catchup_at_snapshot_start"] = true
+				}
 			}
 			last = seq
 			x := &c03Expect{seq: seq, ev: e, snap: snap, uuid: uuid, timeSec: int64(e.Cas / 1_000_000_000)}
@@ -142,7 +173,13 @@ func c03Exec(sc c03Scenario) (detail string, labels map[string]bool) {
 			switch e.Kind {
 			case "mut", "del", "exp":
 				res, early := c03Filtered(e, sc.SkipUntil)
-				x.delivered = !res && !early
+				x.delivered = !res && !early && seq > reached
+				if !res && !early && seq <= reached {
+					labels["filtered_catchup"] = true
+				}
+				if reached != 0 && seq == reached {
+					labels["catchup_event_at_position"] = true
+				}
 				if res {
 					labels["filtered_reserved_key"] = true
 				}
@@ -161,6 +198,9 @@ func c03Exec(sc c03Scenario) (detail string, labels map[string]bool) {
 		go func(i int) {
 			defer wg.Done()
 			defer func() { panics[i] = recover() }()
+			if reached != 0 {
+				o.SetCatchup(gocbcore.SeqNo(reached))
+			}
 			for _, p := range plan {
 				if p.marker != nil {
 					o.SnapshotMarker(models.DcpSnapshotMarker{VbID: vb, StartSeqNo: p.marker[0], EndSeqNo: p.marker[1]})
@@ -367,6 +407,11 @@ func c03Gen(t *rapid.T) c03Scenario {
 			evs = append(evs, rapid.SliceOfN(evGen, 1, 12).Draw(t, "events")...)
 		}
 		sc.Vbs = append(sc.Vbs, evs)
+		c := c03Catch{}
+		if len(evs) > 0 && rapid.IntRange(0, 2).Draw(t, "rolledback") == 0 {
+			c = c03Catch{On: true, Idx: rapid.IntRange(0, len(evs)-1).Draw(t, "catchidx"), Delta: rapid.SampledFrom([]int{0, 0, 0, -1, 1}).Draw(t, "catchdelta")}
+		}
+		sc.Catch = append(sc.Catch, c)
 	}
 	return sc
 }
